@@ -289,6 +289,9 @@ class Model:
 
         # Propagate initial constraints
         if not self._propagate(domains):
+            if hints:
+                # Hints only guide the search: drop them when they cannot be honoured
+                return self._solve_dfs(solution_limit=solution_limit, **kwargs)
             return Result(None, 0, 0, 0, Status.INFEASIBLE)
 
         solutions: list[dict[str, int]] = []
@@ -324,6 +327,8 @@ class Model:
         backtrack(domains)
 
         if not solutions:
+            if hints:
+                return self._solve_dfs(solution_limit=solution_limit, **kwargs)
             return Result(None, 0, iterations[0], 0, Status.INFEASIBLE)
 
         if len(solutions) == 1:
